@@ -18,6 +18,8 @@ worker() {
     prop=${id%%-*}; d=$BASE/$id
     if [ "$MODE" = "refactors" ]; then checks=$(cat $d/checks 2>/dev/null || echo C01 C02 C03 C04 C05 C06 C07 C08 C09 C10 C11 C12 C13 C14 C15 C16 C17 C18 C19 C20)
     else checks="$prop"; [ -f $d/also ] && checks="$checks $(cat $d/also)"; fi
+    # CHECKS_ONLY="C02 C05": run only these of the selected checks (a rerun after changing a few contracts)
+    if [ -n "$CHECKS_ONLY" ]; then keep=""; for c in $checks; do case " $CHECKS_ONLY " in *" $c "*) keep="$keep $c";; esac; done; checks="$keep"; fi
     git -C $WT apply /verif/$d/patch.diff || { echo -e "$id\t-\tpatch-does-not-apply\t" >> $SCR/rows$i.tsv; continue; }
     for c in $checks; do
       out=$(PHYCLONE_REPO=$WT PYTHONPATH=$WT VERIF_EVIDENCE_DIR=$SCR/ev$i VERIF_REPLAY_DIR=$SCR/rp$i bin/check $c 2>&1); code=$?
